@@ -135,7 +135,8 @@ def ops_for(cfg, rnd):
         elif R <= 1024:
             grid = [0, 1, 2, b - 1, b, b + 1, R - 1, R, R + 1, 2 * R - 1, 2 * R, 2 * R + 1, 3 * R + 2]
         else:
-            grid = [0, 1, 2, b - 1, b, b + 1, 100, 1000]
+            # (3, 4, 11, 12: lengths that leave an empty CBC padding with a 20-byte MAC, with and without 1/n-1 split)
+            grid = [0, 1, 2, b - 1, b, b + 1, 100, 1000, 3, 4, 11, 12]
         grid = [g for g in grid if g >= 0]
         if R <= 2:
             grid = [g for g in grid if g <= 40]
